@@ -39,6 +39,13 @@ def replay(prop, path):
         pipeline.name_probe(stub, prog, out)
     if prop in ("C10", "C11"):
         pipeline.print_probe(stub, prog, out, prop)
+    if "aligned" in prog.get("meta", {}):
+        from .. import aligned
+
+        finds, verdict = aligned.check_program(prog, stub.counters)
+        print("eval_aligned pair:", verdict)
+        if verdict == "judged":
+            out.findings.extend(finds)
     if stub.counters:
         print("probe counters:", dict(stub.counters))
     entries = kf.load()
